@@ -10,6 +10,7 @@ import (
 	"strings"
 
 	"verif/h/eng"
+	"verif/h/u"
 )
 
 func init() {
@@ -139,6 +140,22 @@ func init() {
 		for _, a := range args {
 			m, err := d2parser.Parse("index.d2", strings.NewReader(a), nil)
 			fmt.Printf("%q -> %q (err %v)\n", a, d2format.Format(m), err)
+		}
+	}
+}
+
+func init() {
+	eng.Internal["edit-seeds"] = func(args []string) {
+		for _, sd := range Seeds {
+			_, err := compileFS(sd.Text, sd.Files)
+			f1, _ := u.Format(sd.Text)
+			fmt.Printf("== %s tier=%d compiles=%v formatted=%v\n", sd.Name, sd.Tier, err == nil, f1 == sd.Text)
+			if len(args) > 0 || err != nil || f1 != sd.Text {
+				fmt.Print(indent(sd.Text))
+				if err != nil {
+					fmt.Println(err)
+				}
+			}
 		}
 	}
 }
